@@ -39,6 +39,8 @@ type ptI[P, F, S any] interface {
 	Equal(P) bool
 	IsOpIdentity() bool
 	IsZero() bool
+	IsTorsionFree() bool
+	ClearCofactor() P
 	AffineX() (F, error)
 	AffineY() (F, error)
 }
@@ -75,6 +77,8 @@ type group struct {
 	lowDbl    func(a any) any // the low-level Double formula (used by ScalarMulLowLevel)
 	eq        func(a, b any) bool
 	isID      func(a any) (isOpIdentity, isZero bool)
+	torsFree  func(a any) bool
+	clearCof  func(a any) any
 	text      func(a any) string
 	fromText  func(s string) (any, error)     // builds any point of the curve (low level, no subgroup check)
 	rawAffine func(x, y string) (bool, error) // low-level SetAffine verdict on raw coordinates
@@ -160,6 +164,8 @@ func mkGroup[P ptC[P, F, S], F feI[F], S any](c groupCfg[P, F, S]) *group {
 	g.lowDbl = func(a any) any { return c.lowDbl(a.(P)) }
 	g.eq = func(a, b any) bool { return a.(P).Equal(b.(P)) }
 	g.isID = func(a any) (bool, bool) { return a.(P).IsOpIdentity(), a.(P).IsZero() }
+	g.torsFree = func(a any) bool { return a.(P).IsTorsionFree() }
+	g.clearCof = func(a any) any { return a.(P).ClearCofactor() }
 	g.text = func(a any) string {
 		p := a.(P)
 		if c.kind == 'm' {
